@@ -46,7 +46,7 @@ Definition item_ok (x : item) : bool :=
                   && match p with Some ps => tag_body_ok ps | None => true end
       | [] => false
       end
-  | Close n => tag_body_ok n && no_eq n && negb (match strip n with [] => true | _ => false end)
+  | Close n => tag_body_ok n && no_eq n      (* a blank name, e.g. [/ ], acts as [/] *)
   | CloseTop => true
   | Lit s => lit_ok s
   end.
@@ -72,7 +72,11 @@ Section Sem.
     let '(out, opn) := st in
     match x with
     | Open n p => Some (out, (norm n, tag_str (norm n) p) :: opn)
-    | Close n => match remove_named (norm (strip n)) opn with Some o => Some (out, o) | None => None end
+    | Close n =>
+        match strip n with
+        | [] => match opn with _ :: o => Some (out, o) | [] => None end     (* [/ ] = [/] *)
+        | _ => match remove_named (norm (strip n)) opn with Some o => Some (out, o) | None => None end
+        end
     | CloseTop => match opn with _ :: o => Some (out, o) | [] => None end
     | Lit s => Some (out ++ map (fun c => (c, rev (map snd opn))) (strip_cc_with cc s), opn)
     end.
